@@ -256,7 +256,9 @@ func (in *Inst) create() error {
 	w := in.w
 	id := in.spec.ID
 	el.OnPromote(func(ctx context.Context, token string) {
-		w.point("OnPromote", in)
+		// (recorded at the moment the library invokes the callback; the scheduling point
+		// comes afterwards, otherwise a callback parked at its own entry would be logged
+		// after a later one)
 		w.lock()
 		in.nProm++
 		t := &Term{Inst: id, Token: token, TStart: w.now(), ctx: ctx}
@@ -265,6 +267,7 @@ func (in *Inst) create() error {
 		ls, lt := w.leadersNow()
 		w.ev(Ev{K: "promote", I: id, S: token, B: el.IsLeader(), N: termNo, Leaders: ls, LTok: lt, Rec: parseRec(w.store.Live(in.group(), w.now()))})
 		w.unlock()
+		w.point("OnPromote", in)
 		w.signal()
 		if in.spec.NoPromoteBlock {
 			return
@@ -281,12 +284,12 @@ func (in *Inst) create() error {
 		}
 	})
 	el.OnDemote(func() {
-		w.point("OnDemote", in)
 		w.lock()
 		in.nDem++
 		ls, lt := w.leadersNow()
 		w.ev(Ev{K: "demote", I: id, B: el.IsLeader(), Leaders: ls, LTok: lt, Rec: parseRec(w.store.Live(in.group(), w.now()))})
 		w.unlock()
+		w.point("OnDemote", in)
 		w.signal()
 		if in.spec.DemoteDur > 0 {
 			time.Sleep(in.spec.DemoteDur)
